@@ -285,3 +285,21 @@ def robust_map(fn, items, workers, chunksize=64, died=lambda item: ['crash:worke
                         out.append(died(item))
             results[i] = out
     return [r for ch in results for r in ch]
+
+
+def plain(x, depth=0):
+    """plain data only: what a worker hands back must be rebuildable by the parent whatever the code under test put into it"""
+    if isinstance(x, (int, float, str, bool, type(None))):
+        return x
+    if depth > 40:
+        return 'object <deep>'
+    if isinstance(x, dict):
+        return {(k if isinstance(k, (int, float, str, bool, type(None), tuple)) else 'object ' + type(k).__name__): plain(v, depth + 1)
+                for k, v in x.items()}
+    if isinstance(x, list):
+        return [plain(v, depth + 1) for v in x]
+    if isinstance(x, tuple):
+        return tuple(plain(v, depth + 1) for v in x)
+    if isinstance(x, (set, frozenset)):
+        return sorted((plain(v, depth + 1) for v in x), key=repr)
+    return 'object ' + type(x).__name__
